@@ -12,6 +12,11 @@ fn family(name: &str) -> Option<fn(&str) -> String> {
         "magic" => fam_board::magic,
         "table" => fam_table::run,
         "history" => fam_history::run,
+        "session" => fam_engine::session,
+        "eval" => fam_engine::eval,
+        "refsearch" => fam_ref::refsearch,
+        "pvcheck" => fam_ref::pvcheck,
+        "pgn" => fam_pgn::run,
         _ => return None,
     })
 }
